@@ -30,7 +30,7 @@ REQUIRED = ["contract:CVR.make_phantoms", "accounting_checked:style", "accountin
             "pool_means_with_phantoms_checked", "pool_means_with_phantoms_checked:assorter_bound_not_1",
             "audit_wide_max_cards_differs_from_stratum_bound", "phantom_mvrs_for_sampled_phantom_cards_checked",
             "phantom_mvrs_for_sampled_phantom_cards_checked:another_prefix", "contest_with_card_bound_zero", "call_on_a_list_that_already_holds_phantoms:no_style",
-            "phantom_manual_record_built_by_from_raire", "assorter:plurality", "assorter:supermajority", "assorter:irv"]
+            "phantom_manual_record_built_by_from_raire", "phantom_mvrs_for_manifest_lookups_checked", "assorter:plurality", "assorter:supermajority", "assorter:irv"]
 ASSUMPTIONS = ["card bounds >= number of records listing the contest; with style the input list holds no phantoms (the "
                "function is documented for 'the reported CVRs'); without style it may",
                "a phantom labelled pooled inside a pooled batch is scored with that batch's mean by design (C03 depends "
@@ -268,6 +268,28 @@ def run_case(es, rec):
     if got_ph != want_ph or any((not m.phantom) or m.votes for m in res[3]):
         rec.violation("c08.worstcase", "sampled_phantom_cards_do_not_get_phantom_manual_records",
                       {"got": got_ph[:6], "want": want_ph[:6], "prefix": es.get("phantom_prefix")})
+        return
+    # the manifest-driven lookup: the same manifest prepared for a bound that needs a phantom batch; every sampled number
+    # that falls into the phantom batch, and no other, gets a phantom manual record - in whatever order the numbers come
+    total = int(man["Total Ballots"].sum())
+    extra = 1 + len(es["cards"]) % 4
+    ok, pm = rec.guard("c08.call:Dominion.prep_manifest", Dominion.prep_manifest, man.copy(), total + extra, total)
+    if not ok:
+        return
+    nums = list(range(1, total + extra + 1))
+    prng2 = __import__("random").Random(total * 31 + extra)
+    prng2.shuffle(nums)
+    nums = nums[: 12] + [n for n in nums[12:] if n > total]       # a dozen cards in random order plus every phantom
+    prng2.shuffle(nums)
+    ok, lk = rec.guard("c08.call:Dominion.sample_from_manifest", Dominion.sample_from_manifest, pm[0], nums)
+    if not ok:
+        return
+    want_ids = sorted(f"phantom-1-{n - total}" for n in nums if n > total)
+    got_ids = sorted(m.id for m in lk[2])
+    rec.count("phantom_mvrs_for_manifest_lookups_checked")
+    if got_ids != want_ids or any((not m.phantom) or m.votes for m in lk[2]):
+        rec.violation("c08.worstcase", "sampled_phantom_cards_do_not_get_phantom_manual_records:manifest_lookup",
+                      {"got": got_ids[:8], "want": want_ids[:8], "sample": nums})
         return
     # pooled phantom CVRs enter the audit only through their batch's mean: each must contribute exactly 1/2 to the batch
     # total (reference: sum of reference assorter values of the batch's real CVRs + 1/2 per phantom)
